@@ -94,6 +94,16 @@ def numpy_sum(ex, a, axis=None):
         raise Unsupported("numpy.sum of %r" % (a,))
     snap = a.snapshot()
     if a.rank == 1 and axis in (None, 0):
+        if isinstance(a.shape[0], int) and a.shape[0] <= 8:
+            # a short vector of known length: the sum written out (values stay symbolic; cells are simplified so that
+            # table look-ups at concrete positions become their entries)
+            r = 0
+            for k in range(a.shape[0]):
+                c = snap.get([k])
+                if is_z3(c):
+                    c = z3.simplify(c)
+                r = arith("+", r, c)
+            return r
         return mk_sum(ex, a.shape[0], lambda k: snap.get([k]))
     if a.rank == 2 and axis is None:
         return mk_sum(ex, a.shape[0], lambda i: mk_sum(ex, a.shape[1], lambda j: snap.get([i, j])))
